@@ -11,7 +11,7 @@ import (
 
 func init() {
 	register("S1", "in the interpreter loop of CallInternal the step increment, the step-limit test (whose reached-edge cancels) and the cancelReason.Load test (whose non-nil edge leaves the loop) all dominate the instruction fetch, lie inside the loop, and occur in that order; fr.pc is saved before the fetch", 5, ruleS1)
-	register("S2", "the step-limit branch is taken iff Steps >= maxSteps after the increment (a '>' would let the thread execute step N)", 1, ruleS2)
+	register("S2", "the step-limit branch is taken iff Steps >= maxSteps after the increment (a '>' would let the thread execute step N), and maxSteps is read inside the loop on every iteration", 1, ruleS2)
 	register("S3", "cancellation state discipline: Thread.cancelReason is touched only through atomic.Pointer methods; Cancel uses CompareAndSwap(nil, ...) (first reason wins), Uncancel uses Store(nil), nothing else stores; Thread.Steps is written only by the interpreter loop's increment", 4, ruleS3)
 	register("S4", "every path from CallInternal's entry to the interpreter loop passes the call-depth test (when recursion is enabled) or the scan comparing the callee's *Funcode with every enclosing frame's (when it is not), each of which returns an error", 3, ruleS4)
 }
@@ -351,6 +351,47 @@ func ruleS2(c *Ctx) {
 		}
 	}
 	pos := c.P.Pos(b.Pos())
+	// the limit must be read afresh in every iteration: the host may lower it while the
+	// thread runs (SetMaxExecutionSteps from a built-in), and frames already active must see it
+	limitSide := b.Y
+	if !stepsLeft {
+		limitSide = b.X
+	}
+	stale := ""
+	var findLoad func(v ssa.Value, d int)
+	findLoad = func(v ssa.Value, d int) {
+		if d > 6 {
+			return
+		}
+		switch x := v.(type) {
+		case *ssa.UnOp:
+			if x.Op == token.MUL {
+				if _, ok := x.X.(*ssa.FieldAddr); ok {
+					if !blockReaches(x.Block(), x.Block()) {
+						stale = c.P.Pos(x.Pos())
+					}
+					return
+				}
+			}
+			findLoad(x.X, d+1)
+		case *ssa.Convert:
+			findLoad(x.X, d+1)
+		case *ssa.ChangeType:
+			findLoad(x.X, d+1)
+		case *ssa.BinOp:
+			findLoad(x.X, d+1)
+			findLoad(x.Y, d+1)
+		case *ssa.Phi:
+			for _, e := range x.Edges {
+				findLoad(e, d+1)
+			}
+		}
+	}
+	findLoad(limitSide, 0)
+	if stale != "" {
+		c.viol(key, pos, fmt.Sprintf("the limit compared with Steps is read outside the interpreter loop (%s): a frame that is already running keeps the limit it saw when it was entered, so lowering the limit during execution does not stop it", stale))
+		return
+	}
 	switch {
 	case op != token.GEQ && op != token.LSS:
 		c.viol(key, pos, fmt.Sprintf("the limit comparison is Steps %s maxSteps; it must be >= (or its negation <) so that a limit of N stops before executing step N", op))
@@ -535,4 +576,53 @@ func baseName(fn *ssa.Function) string {
 		n = n[:i]
 	}
 	return n
+}
+
+func init() {
+	register("S6", "cancellation is sticky: only the host can reset it - no function of the module calls Thread.Uncancel (an implicit reset, e.g. when the step budget is raised, would erase a pending host Cancel and let the thread run on)", 1, ruleS6)
+	claim("C07", "S6")
+}
+
+func ruleS6(c *Ctx) {
+	un := c.P.Func("starlark", "Thread.Uncancel")
+	if un == nil {
+		c.anchorFail("(*starlark.Thread).Uncancel not found")
+		return
+	}
+	n := 0
+	for _, fn := range c.P.Funcs {
+		if !isProdPkg(fnPkgPath(fn)) {
+			continue
+		}
+		fn := fn
+		eachInstr(fn, func(in ssa.Instruction) {
+			hit := false
+			switch x := in.(type) {
+			case ssa.CallInstruction:
+				hit = x.Common().StaticCallee() == un
+			case *ssa.MakeClosure:
+				hit = x.Fn == ssa.Value(un)
+			}
+			if !hit {
+				// method value thread.Uncancel
+				var ops []*ssa.Value
+				for _, op := range in.Operands(ops) {
+					if op != nil && *op != nil {
+						if f, ok := (*op).(*ssa.Function); ok && (f == un || (f.Synthetic != "" && strings.Contains(f.Name(), "Uncancel") && strings.Contains(f.String(), "starlark.Thread"))) {
+							if _, isCall := in.(ssa.CallInstruction); !isCall {
+								hit = true
+							}
+						}
+					}
+				}
+			}
+			if hit {
+				n++
+				c.viol(fmt.Sprintf("%s: calls Thread.Uncancel", fnName(fn)), c.P.Pos(in.Pos()), "the module resets the thread's cancellation by itself: a Cancel issued by the host before this point is lost and the thread continues to execute")
+			}
+		})
+	}
+	if n == 0 {
+		c.ok("Thread.Uncancel: callers inside the module", c.P.Pos(un.Pos()), "none: only the host application resets cancellation")
+	}
 }
